@@ -1106,7 +1106,7 @@ class TermCanvas(Canvas):
             elif attr in {38, 48}:
                 if idx + 2 < len(attrs) and attrs[idx + 1] == 5:
                     # 8 bit color specification
-                    color = attrs[idx + 2]
+                    color = min(attrs[idx + 2], 255)
                     colors = max(256, colors)
                     if attr == 38:
                         fg = color
